@@ -37,9 +37,10 @@ Record variant := { v_validate : bool; v_replace : bool; v_dedup : bool; v_rollb
      v_late       a dataplane add that completes late is reconciled with what happened meanwhile: a release of the
                   session cancels the activation in flight (blocks and reverse entries released), a successful
                   completion commits only if the subscriber still holds the block, a failed one removes the
-                  subscriber's reverse entries before releasing.  NO patch exists for this one: it is the
-                  specification of a repair, used to recognise the recorded finding; the exactness theorem is
-                  proved for histories without late completions only. *)
+                  subscriber's reverse entries before releasing
+                  (fixes/C15_late_add_completion.patch).  The exactness theorem is proved for histories without
+                  late completions only; for late completions this variant is tied to the patched code by the
+                  correspondence check alone. *)
 Definition repaired : variant :=
   {| v_validate := true; v_replace := true; v_dedup := true; v_rollback := true; v_vrfkey := true; v_xpool := true;
      v_late := true |}.
